@@ -407,6 +407,12 @@ func runC17(c *ctx) {
 					}
 					routes = append(routes, g)
 				}
+				if r.chance(30) {
+					// a destination that several tables route to (the same service reached through two ports / hosts), with the
+					// same policy in each: its policies stay installed as long as ANY cached table still names it
+					routes = append(routes, &gRetryRoute{NumRetries: 2, PerTryMs: 100, ErrRate: "0.2", Clusters: []string{"shared-c"}, Methods: []string{"Echo"}})
+					c.count("cluster-shared-across-tables", 1)
+				}
 				past[tn] = append(past[tn], routes)
 				rcfg := &v3routepb.RouteConfiguration{Name: tn}
 				vh := &v3routepb.VirtualHost{Name: "vh"}
